@@ -68,6 +68,10 @@ for kind, (nm, props, fns) in enumerate(ITER_KINDS):
         h("whole_%s_n%d" % (nm, n), n + 3, "iters::whole::<_, %d, %d>" % (kind, n), props + ["C20"], tier,
           "any WF arena of N=%d slots; full traversal through the real constructor (stack re-homed into reserved capacity), probe prefix; %s; unwind %d" % (n, P8, n + 3), fns, cost=cost,
           stub="growmodel" if kind == 3 else "nogrow")
+h("proj_n2", 5, "iters::proj::<_, 2>", ["C03", "C13", "C20"], "quick",
+  "any WF arena of N=2 slots (root with at most one child: the real `vec![0]` stacks never grow); keys / values / (&map).into_iter / values_mut / into_keys / into_values / Keys::clone (taken after the first item) / set iter / (&set).into_iter / set.into_iter through the real constructors, item by item against iter(), which is checked against the entry oracle; %s; unwind 5" % P8,
+  ["PrefixMap::{iter,keys,values,values_mut,into_keys,into_values}", "<&PrefixMap>::into_iter", "Keys::next", "Values::next", "ValuesMut::next", "IntoKeys::next", "IntoValues::next", "Keys::clone", "Iter::clone",
+   "PrefixSet::iter", "<&PrefixSet>::into_iter", "<PrefixSet>::into_iter", "set::Iter::next", "set::IntoIter::next"], cost=60)
 CH_KINDS = [("children", ["C10", "C18"], ["PrefixMap::children", "lpm_children_iter_start", "Iter::next"]),
             ("children_mut", ["C10", "C13"], ["PrefixMap::children_mut", "lpm_children_iter_start", "IterMut::next"]),
             ("into_children", ["C10"], ["PrefixMap::into_children", "lpm_children_iter_start", "IntoIter::next"])]
